@@ -77,9 +77,9 @@ class BodySizeSpec(HttpStreamSpec):
 
     def value(self, expr, st, depth):
         ch = attr_chain(expr)
-        if ch == "self.context.options.stream_large_bodies":
+        if ch.endswith(".options.stream_large_bodies") or ch == "options.stream_large_bodies" or self._opt_alias(ch, "stream_large_bodies", st, depth):
             return C("thr" if self.cfg["thr_rel"] != "unset" else None)
-        if ch == "self.context.options.body_size_limit":
+        if ch.endswith(".options.body_size_limit") or ch == "options.body_size_limit" or self._opt_alias(ch, "body_size_limit", st, depth):
             return C("lim" if self.cfg["limit_rel"] != "unset" else None)
         if isinstance(expr, ast.Call):
             name = last_attr(expr.func)
@@ -101,6 +101,13 @@ class BodySizeSpec(HttpStreamSpec):
             if name == "expected_http_body_size":
                 return ("size", "pos" if self.cfg["expected"] == "error" else self.cfg["expected"])
         return HttpStreamSpec.value(self, expr, st, depth)
+
+    def _opt_alias(self, ch, opt, st, depth):
+        """`<local>.<opt>` where the local is bound to the options object (self.context.options)"""
+        if ch.count(".") == 1 and ch.endswith("." + opt):
+            v = st.get(f"{depth}:{ch.split('.')[0]}")
+            return v[0] == "r" and v[1].endswith("context.options")
+        return False
 
     def decide_leaf(self, cond, st, depth):
         if isinstance(cond, ast.Compare) and len(cond.ops) == 1:
@@ -428,70 +435,84 @@ def check(ctx):
         ctx.require(sites >= 1, f"{fname}: {hook} yield not found")
     ctx.expect_instances("R07.2", 4)
 
-    # ---- R07.3 streamed relay
-    for fname, buf, kind, side in (
-        ("state_stream_request_body", "self.request_body_buf", "RequestData", "server"),
-        ("state_stream_response_body", "self.response_body_buf", "ResponseData", "client"),
+    # ---- R07.3 streamed relay: the *Data branch of both stream states is interpreted (mitmlint.pyint; SendHttp / *Data are recording stubs)
+    # for every kind of `stream` attribute (True, a callable returning bytes / a list / nothing) and both values of store_streamed_bodies:
+    # each chunk is sent exactly once, in order, to the right side, and is stored only when the option is on.
+    from ..pyint import Interp as PInterp
+    from ..pyint import Raised as PRaised
+    from ..pyint import Rec as PRec
+
+    class _Ev:
+        def __init__(self, kind, sid, data):
+            self.kind, self.stream_id, self.data = kind, sid, data
+
+    class _Send:
+        def __init__(self, event, conn):
+            self.event, self.conn = event, conn
+
+    IN = b" \x00<received>\xff\r\n "  # bytes a "harmless" normalisation (strip, decode/encode) would change
+    for fname, bufattr, kind, side, msgattr in (
+        ("state_stream_request_body", "request_body_buf", "RequestData", "server", "request"),
+        ("state_stream_response_body", "response_body_buf", "ResponseData", "client", "response"),
     ):
         fn = ctx.func(REL, f"HttpStream.{fname}")
         where = (REL, f"HttpStream.{fname}", fn)
-        loops = [n_ for n_ in walk_in_order(fn) if isinstance(n_, ast.For)]
-        ctx.require(len(loops) >= 2, f"{fname}: expected the two chunk relay loops")
-        for lp in loops:
-            tgt = lp.target.id if isinstance(lp.target, ast.Name) else None
-            ctx.require(tgt is not None, f"{fname}: loop target is not a simple name")
-            sends = []
-            for y in [n_ for n_ in walk_in_order(lp) if isinstance(n_, ast.Yield)]:
-                v = y.value
-                if isinstance(v, ast.Call) and last_attr(v.func) == "SendHttp":
-                    sends.append(v)
-            okk = (
-                len(sends) == 1
-                and isinstance(sends[0].args[0], ast.Call)
-                and last_attr(sends[0].args[0].func) == kind
-                and len(sends[0].args[0].args) >= 2
-                and isinstance(sends[0].args[0].args[1], ast.Name)
-                and sends[0].args[0].args[1].id == tgt
-                and attr_chain(sends[0].args[1]).endswith("context." + side)
-                and sends[0]._parent._parent in lp.body  # directly in the loop body: unconditional, once per iteration
-            )
-            ctx.check(okk, "R07.3", where, f"for {tgt} in {norm(lp.iter)}: send", f"each streamed chunk must go into exactly one {kind} to the {side}, unconditionally",
-                      desc=f"{fname}: one {kind} per chunk")
-            # buffer writes only under the option
-            for st_ in walk_in_order(lp):
-                if isinstance(st_, ast.AugAssign) and attr_chain(st_.target) == buf:
-                    par = st_._parent
-                    okc = isinstance(par, ast.If) and attr_chain(par.test) == "self.context.options.store_streamed_bodies" and st_ in par.body
-                    ctx.check(okc, "R07.3", where, f"{buf} += {tgt}", "streamed chunk is stored although store_streamed_bodies is not consulted", desc=f"{fname}: store under option")
-        # any buffer write outside the loops?
-        for st_ in walk_in_order(fn):
-            if isinstance(st_, ast.AugAssign) and attr_chain(st_.target) == buf and not any(st_ in list(walk_in_order(lp)) for lp in loops):
-                ctx.fail("R07.3", where, norm(st_), "streamed body is buffered outside the relay loop")
-        # default chunk list is [event.data]
-        defaults = [a for a in walk_in_order(fn) if isinstance(a, ast.Assign) and isinstance(a.targets[0], ast.Name) and a.targets[0].id == "chunks"
-                    and isinstance(a.value, ast.List) and len(a.value.elts) == 1 and attr_chain(a.value.elts[0]) == "event.data"]
-        ctx.check(len(defaults) == 1, "R07.3", where, "chunks = [event.data]", "without a stream callable the received bytes themselves must be relayed", desc=f"{fname}: identity relay")
-    ctx.expect_instances("R07.3", 10)
+        streams = {
+            "True (no transformation)": (True, [IN]),
+            "callable -> bytes": ((lambda d: b"T:" + d), [b"T:" + IN]),
+            "callable -> list of chunks": ((lambda d: [b"1", d, b"3"]), [b"1", IN, b"3"]),
+            "callable -> empty list (swallowed)": ((lambda d: []), []),
+        }
+        bad = {"relay": None, "store": None}
+        for sname, (stream, want) in streams.items():
+            for store in (False, True):
+                buf = bytearray()
+                server, client = PRec("Server"), PRec("Client")
+                msg = PRec("Message", stream=stream, trailers=None)
+                flow = PRec("HTTPFlow", live=True, error=None, websocket=None, **{msgattr: msg, ("response" if msgattr == "request" else "request"): PRec("Message", stream=False, trailers=None)})
+                me = PRec("HttpStream", _bases=("Layer",), _impl=(REL, "HttpStream"), flow=flow, stream_id=7,
+                          context=PRec("Context", server=server, client=client, options=PRec("Options", store_streamed_bodies=store)), **{bufattr: buf})
+                mk = lambda k: (lambda sid, data=None, *a, **kw: _Ev(k, sid, data))  # noqa: E731
+                ext = {"SendHttp": lambda ev, conn: _Send(ev, conn), "RequestData": mk("RequestData"), "ResponseData": mk("ResponseData")}
+                it = PInterp(m, externals=ext)
+                ev = PRec(kind, _bases=("HttpEvent", "Event"), stream_id=7, data=IN)
+                try:
+                    out = list(it.method(me, fname, ev))
+                except PRaised as r:
+                    out = [f"<raises {r.name}>"]
+                ctx.cells += 1
+                sends = [o for o in out if isinstance(o, _Send)]
+                got = [(o.event.kind, o.event.stream_id, o.event.data, "server" if o.conn is server else "client" if o.conn is client else "?") for o in sends]
+                if (got != [(kind, 7, c, side) for c in want] or len(sends) != len(out)) and bad["relay"] is None:
+                    bad["relay"] = f"stream = {sname}, store_streamed_bodies={store}: a received chunk is relayed as {got if len(sends) == len(out) else out!r}, expected {[(kind, 7, c, side) for c in want]}"
+                held = bytes(getattr(me, bufattr))
+                if held != (b"".join(want) if store else b"") and bad["store"] is None:
+                    bad["store"] = f"stream = {sname}, store_streamed_bodies={store}: the flow's buffer holds {held!r} afterwards"
+        ctx.check(bad["relay"] is None, "R07.3", where, f"{kind}: every chunk relayed once, in order, to the {side}", bad["relay"] or "", desc=f"{fname}: chunks of 4 stream kinds relayed exactly")
+        ctx.check(bad["store"] is None, "R07.3", where, f"{kind}: streamed bytes kept only with store_streamed_bodies", bad["store"] or "", desc=f"{fname}: buffer written iff store_streamed_bodies")
+    ctx.expect_instances("R07.3", 4)
 
-    # ---- R07.4 parse_size
-    units = m.const(HUMAN, "SIZE_UNITS")
-    ctx.require(isinstance(units, ast.Dict), "SIZE_UNITS is not a dict literal")
-    table = {const_eval(k): const_eval(v) for k, v in zip(units.keys, units.values)}
-    ref = {"b": 1, "k": 1024, "m": 1024**2, "g": 1024**3, "t": 1024**4}
-    ctx.check(table == ref, "R07.4", (HUMAN, "<module>", units), f"SIZE_UNITS = {table}", f"suffix table differs from {ref}", desc="SIZE_UNITS table")
-    ps = ctx.func(HUMAN, "parse_size")
-    tr, eng = traces_of(ps, GenericSpec(record_conds=True))
-    first = ps.body[1] if isinstance(ps.body[0], ast.Expr) else ps.body[0]
-    ok_none = isinstance(first, ast.If) and norm(first.test) == "s is None" and isinstance(first.body[0], ast.Return) and norm(first.body[0].value) == "None"
-    ctx.check(ok_none, "R07.4", (HUMAN, "parse_size", ps), "if s is None: return None", "None must map to None (option unset)", desc="None -> None")
-    raises_ve = isinstance(ps.body[-1], ast.Raise) and last_attr(ps.body[-1].exc) == "ValueError"
-    ctx.check(raises_ve, "R07.4", (HUMAN, "parse_size", ps), "final raise ValueError", "invalid size specifications must be rejected", desc="invalid -> ValueError")
+    # ---- R07.4 parse_size (interpreted) and validation of both options at configure time
+    ctx.func(HUMAN, "parse_size")
+    ref_sizes = {None: None, "0": 0, "1": 1, "1024": 1024, "5b": 5, "1k": 1024, "3k": 3072, "2m": 2 * 1024**2, "1g": 1024**3, "1t": 1024**4, "10m": 10 * 1024**2,
+                 "": "ValueError", "k": "ValueError", "abc": "ValueError", "1x": "ValueError", "1kk": "ValueError", "1.5k": "ValueError", "m1": "ValueError"}
+    wrong = []
+    for arg, want in ref_sizes.items():
+        it = PInterp(m)
+        try:
+            got = it.call(HUMAN, "parse_size", arg)
+        except PRaised as r:
+            got = r.name
+        ctx.cells += 1
+        if got != want or (got is not None and not isinstance(got, str) and type(got) is not int):
+            wrong.append(f"parse_size({arg!r}) = {got!r}, expected {want!r}")
+    ctx.check(not wrong, "R07.4", (HUMAN, "parse_size", m.func(HUMAN, "parse_size")), "parse_size table", "; ".join(wrong[:3]) + ": limits would be enforced at a different size (or an invalid value accepted)", desc=f"parse_size: {len(ref_sizes)} representative inputs (None, plain, each suffix, invalid)")
     conf = ctx.func(PS, "Proxyserver.configure")
     for opt in ("stream_large_bodies", "body_size_limit"):
         hits = [c for c in calls_in(conf, suffix="parse_size") if c.args and attr_chain(c.args[0]).endswith("options." + opt)]
         inside_try = any(isinstance(p, ast.Try) for c in hits for p in _parents(c))
         ctx.check(bool(hits) and inside_try, "R07.4", (PS, "Proxyserver.configure", conf), f"parse_size(ctx.options.{opt}) in try", f"option {opt} is not validated when it is set", desc=f"configure validates {opt}")
-    ctx.expect_instances("R07.4", 5)
+    ctx.expect_instances("R07.4", 3)
 
 
 def _parents(n):
